@@ -362,6 +362,12 @@ func (idx *index) close() error {
 	if err := idx.writeMeta(); err != nil {
 		return err
 	}
+	if err := idx.main.Sync(); err != nil {
+		return err
+	}
+	if err := idx.overflow.Sync(); err != nil {
+		return err
+	}
 	if err := idx.main.Close(); err != nil {
 		return err
 	}
